@@ -21,7 +21,7 @@ SHEET_NAMES = ['Sheet1', 'Data', 'My Sheet', "It's", 'Q&A', '2020', 'Übung',
                'S2', 'a.b', 'Sheet 3']
 TEXTS = ['abc', 'Hello World', 'x', 'héllo wörld', '12', '3.5', 'TRUE',
          'a"b', "it's", '日本', 'a&b<c>', ' padded ', 'line1 line2', 'UPPER',
-         '#N/A text']
+         '#N/A text', '=A1+1', '=SUM(A1:B2)', '=not a formula', '+1', '-x']
 ERRORS = ['#N/A', '#DIV/0!', '#VALUE!', '#REF!', '#NAME?', '#NUM!', '#NULL!']
 EPOCH = datetime.datetime(1899, 12, 30)
 
@@ -529,8 +529,9 @@ def range_member_addresses(wb, ignore):
 
 
 def direct_contents(wb, ignore):
-    """Per sheet {address: python value | '=formula'} for the model built
-    directly from the same cell contents."""
+    """Per sheet {address: ('f', '=formula') | ('c', constant)} for the model
+    built directly from the same cell contents (a text constant may well
+    start with '=')."""
     out = []
     for sh in wb['sheets']:
         if sh['name'] in ignore:
@@ -541,10 +542,10 @@ def direct_contents(wb, ignore):
             if spec['form'] == 'f':
                 s = spec.get('shared')
                 dc, dr = (s['dc'], s['dr']) if s else (0, 0)
-                d[a] = '=' + render_formula(spec['parts'], dc, dr)
+                d[a] = ('f', '=' + render_formula(spec['parts'], dc, dr))
             elif spec['form'] == 'd' and wb.get('date1904'):
-                d[a] = serial_to_datetime(spec['serial'], True)
+                d[a] = ('c', serial_to_datetime(spec['serial'], True))
             else:
-                d[a] = worlds.dec(spec['value'])
+                d[a] = ('c', worlds.dec(spec['value']))
         out.append((sh['name'], d))
     return out
